@@ -43,11 +43,13 @@ let mix h (s : string) =
   Stdlib.String.iter (fun c -> h := ((!h * 1099511628211) lxor (Char.code c)) land mask) s;
   !h
 
-let sweep mode len prefix digest =
+let sweep mode len prefix digest (alphabet : int array) =
+  let alphabet_n = Array.map n_of_int alphabet in
+  let k_sym = Array.length alphabet in
   let fixed = min len 2 in
   let idx = Array.make len 0 in
-  if fixed = 2 then (idx.(0) <- prefix / 6; idx.(1) <- prefix mod 6)
-  else if fixed = 1 then idx.(0) <- prefix mod 6;
+  if fixed = 2 then (idx.(0) <- prefix / k_sym; idx.(1) <- prefix mod k_sym)
+  else if fixed = 1 then idx.(0) <- prefix mod k_sym;
   let count = ref 0 and n_ok = ref 0 and n_err = ref 0 and n_changed = ref 0 in
   (* 14695981039346656037 land mask, written so that it fits OCaml's int *)
   let h = ref 0x0bf29ce484222325 in
@@ -73,7 +75,7 @@ let sweep mode len prefix digest =
         fin := true
       end else begin
         decr k;
-        if idx.(!k) + 1 < 6 then (idx.(!k) <- idx.(!k) + 1; moved := true)
+        if idx.(!k) + 1 < k_sym then (idx.(!k) <- idx.(!k) + 1; moved := true)
         else idx.(!k) <- 0
       end
     done
@@ -82,6 +84,10 @@ let sweep mode len prefix digest =
 let () =
   let mode_of = function "mirror" -> 0 | "mirror-old" -> 1 | "spec" -> 2 | "blank" -> 3 | _ -> (prerr_endline "bad mode"; exit 2) in
   match Array.to_list Sys.argv with
-  | _ :: "sweep" :: m :: len :: prefix :: d :: _ -> sweep (mode_of m) (int_of_string len) (int_of_string prefix) (d = "digest")
+  | _ :: "sweep" :: m :: len :: prefix :: d :: rest ->
+    let alpha = match rest with
+      | a :: _ -> Array.of_list (Stdlib.List.map int_of_string (Stdlib.String.split_on_char ',' a))
+      | [] -> alphabet in
+    sweep (mode_of m) (int_of_string len) (int_of_string prefix) (d = "digest") alpha
   | _ :: m :: _ -> each_line (run_line (mode_of m))
-  | _ -> prerr_endline "usage: model_preprocess mirror|mirror-old|spec | sweep <mode> <len> <prefix> full|digest"; exit 2
+  | _ -> prerr_endline "usage: model_preprocess mirror|mirror-old|spec | sweep <mode> <len> <prefix> full|digest [c,c,c,...]"; exit 2
